@@ -12,7 +12,7 @@ recheck() {
     if [ "$1" = DETECTED ]; then shift; fi
     id=$3
     git -C "$D" checkout -q -- . 2>/dev/null
-    if [ "${FAMILY:-1}" = 2 ]; then desc=$(/verif/bin/mutgen2 -repo "$D" -pkg ./$PKG -apply $id 2>/dev/null) || { echo "ERROR $PKG $id"; continue; }
+    if [ "${FAMILY:-1}" != 1 ]; then desc=$(/verif/bin/mutgen2 -repo "$D" -pkg ./$PKG -family $FAMILY -apply $id 2>/dev/null) || { echo "ERROR $PKG $id"; continue; }
     else desc=$(/verif/bin/mutgen -dir "$D/$PKG" -apply $id 2>/dev/null) || { echo "ERROR $PKG $id"; continue; }; fi
     out=$(timeout 120 /verif/bin/goyang-verif -repo "$D" -verif /verif -all -no-evidence 2>&1); rc=$?
     if [ $rc = 0 ]; then echo "MISSED $PKG $id $desc";
